@@ -377,9 +377,16 @@ fn advance(rep: &mut Report, h: &mut Hist, b: &Value, factory: &Factory) -> Prog
             if removable || unused { stake.push(format!("{what}:removable={removable},unused={unused}")) }
         }
         else {
-            // an unexpired stored point is never removed
+            // an unexpired stored point is never removed.  "Unexpired" is the notAfter of the manifest's EE certificate as
+            // this harness issued it, not the time the stored record claims
+            let fnow = factory.now.timestamp();
             for (k, f) in &pre.points {
-                if let PointState::Ok(v, na) = f.state {
+                if let PointState::Ok(v, recorded) = f.state {
+                    let na = if f.p == 0 { fnow + 24 * 3600 }
+                             else { h.short_abs.get(&(f.p, v)).map(|s| fnow + if *s == 0 { -1 } else { *s }).unwrap_or(fnow + 24 * 3600) };
+                    if recorded != na {
+                        rep.divergence(P, format!("history {}: run {}: stored point {k} records notAfter {recorded}, the manifest's certificate says {na}", h.idx, ri));
+                    }
                     if na * 1000 > t_end + 1000 {
                         let kept = matches!(post.points.get(k).map(|g| &g.state), Some(PointState::Ok(..)));
                         if !kept {
